@@ -62,12 +62,35 @@ def extobj_attr(m, o, name, node):
         return NativeFn("RandomState." + name, lambda mach, a, k, n, name=name, o=o: rng_method(mach, o, name, a, k, n))
     if o.kind == "typing":
         return ExtObj("typing")
+    if o.kind in ("datetime", "timedelta"):
+        if name in ("seconds", "days", "microseconds"):
+            r = m.fresh_scalar("int", "dt." + name)
+            m.assume(r.t >= 0)
+            return r
+        if name == "total_seconds":
+            return NativeFn("total_seconds", lambda mach, a, k, n: mach.fresh_scalar("real", "dt.total"))
+        if name == "replace":
+            return NativeFn("replace", lambda mach, a, k, n: ExtObj("datetime"))
     raise Unsupported("attribute %s of library object %s" % (name, o.kind), node)
+
+
+def _to_native(v):
+    if isinstance(v, ExtObj) and v.kind == "specdata":
+        return v.data["value"]
+    if isinstance(v, (int, str, bool)) or v is None:
+        return v
+    if isinstance(v, tuple):
+        return tuple(_to_native(x) for x in v)
+    raise Unsupported("specification data must be concrete (%r)" % (v,))
 
 
 def call_extobj(m, o, args, kw, node):
     if o.kind == "typing":
         return ExtObj("typing")
+    if o.kind == "specdata":
+        # type descriptors and other plain data of pyvc.spec are built natively
+        fn = o.data["value"]
+        return ExtObj("specdata", {"value": fn(*[_to_native(a) for a in args], **{k: _to_native(v) for k, v in kw.items()})})
     if o.kind == "pytype":
         from .builtins import BUILTINS
 
@@ -583,3 +606,10 @@ def np_random_randint(m, args, kw, node):
 @ext("time.sleep", "no effect on program state")
 def time_sleep(m, args, kw, node):
     return None
+
+
+@ext("collections.OrderedDict", "insertion-ordered dict (python dicts are ordered)")
+def coll_ordereddict(m, args, kw, node):
+    from .builtins import BUILTINS
+
+    return BUILTINS["dict"].fn(m, args, kw, node)
